@@ -23,8 +23,10 @@ RULE = ('seeded random histories (3..16 operations) over the hierarchy HA(x) <- 
         'column, unknown keyword -- so the create fails at a chosen level), get / attribute assignment / multi-column set / '
         'destroySelf through every entry class, select on every class with filters (comparison, IS NULL, AND/OR/NOT, id) mixing '
         'own and inherited columns, selectBy, alternate-id lookup, rows referencing the middle level through a cascade=False '
-        'foreign key; autocommit connection or one open Transaction; warm or cold identity map; plus an enumerated stream '
-        '(every class x every failing level x every kind of failure, every entry class x every column) and a malformed stream '
+        'foreign key; autocommit connection or one open Transaction; warm or cold identity map; in a third of the histories the '
+        'classes\' default connection is another, empty database and every operation names its connection; plus an enumerated stream '
+        '(every class x every failing level x every kind of failure, every entry class x every column, multi-column sets with an '
+        'invalid own / inherited value through every entry class) and a malformed stream '
         '(absent ids, wrong entry class, invisible columns). '
         'Non-trivial = the history holds a subclass instance and reaches it through an ancestor class or selects on a subclass; '
         'distinct = distinct (mode, warm, operation list).')
@@ -113,9 +115,10 @@ class Sim(object):
         self.vals.pop(i, None)
 
 
-def gen_history(rng, n, mode=None, warm=None, refs=True):
+def gen_history(rng, n, mode=None, warm=None, refs=True, conn=None):
     mode = mode or ('txn' if rng.random() < 0.15 else 'auto')
     warm = (rng.random() < 0.5) if warm is None else warm
+    conn = conn or ('explicit' if rng.random() < 1.0 / 3 else 'default')
     ops = []
     sim = Sim(mode)
     pool = [1, 2, 3, 4, 5]
@@ -195,7 +198,7 @@ def gen_history(rng, n, mode=None, warm=None, refs=True):
             ops.append(['ref', anyid('B') if rng.random() < 0.9 else sim.seq + rng.randint(1, 3)])
         else:
             ops.append(['unref', anyid('B')])
-    return {'mode': mode, 'warm': warm, 'ops': ops}
+    return {'mode': mode, 'warm': warm, 'conn': conn, 'ops': ops}
 
 
 FAILS = {
@@ -255,6 +258,23 @@ def enum_cases():
                 ['select', k, ['or', ['id', '==', 3], ['cmp', 'x', '==', 1]]], ['selectby', k, None, None],
                 ['byx', k, 3], ['byx', k, 1], ['byx', k, 4]]
         out.append({'mode': 'auto', 'warm': True, 'ops': ops})
+    for n, c in enumerate(out):
+        c['conn'] = 'explicit' if n % 3 == 1 else 'default'
+    # multi-column set on every class: an invalid own value next to valid inherited ones (nothing may be written),
+    # and an invalid / refused inherited value after an accepted one (open finding: not atomic)
+    for k in CLASSES:
+        own = COLOF[k]
+        inh = [COLOF[c] for c in CHAIN[k][:-1]]
+        base = [['create', k, {COLOF[c]: 1 for c in CHAIN[k]}, False], ['create', 'C', {'x': 2, 'y': 2, 'z': 2}, False]]
+        for e in CHAIN[k]:
+            ops = list(base)
+            ops.append(['set', e, 1, [[c, 5] for c in inh] + [[own, 'bad']]])
+            ops.append(['set', e, 1, [[own, 'bad']] + [[c, 6] for c in inh]])
+            if inh:
+                ops.append(['set', e, 1, [[inh[-1], 7], [own, 2 if k == 'C' else 7], [inh[0], 'bad']][:3 if len(inh) > 1 else 2]])
+                ops.append(['set', e, 1, [[inh[0], 8], [own, 2]]])
+            ops.append(['get', e, 1])
+            out.append({'mode': 'auto', 'warm': e == 'A', 'conn': 'explicit' if e == 'B' else 'default', 'ops': ops})
     return out
 
 
@@ -271,7 +291,25 @@ def corpus():
                                               ['create', 'C', {'x': 2, 'y': 1, 'z': 2}, False], ['create', 'C', {'x': 1, 'y': 2, 'z': 2}, False],
                                               ['create', 'C', {'x': 2, 'y': 2, 'z': 2}, True], ['select', 'A', ['true']],
                                               ['create', 'C', {'x': 2, 'y': 2, 'z': 2}, False], ['get', 'A', 5]]},
-    ]
+    ] + SEEDED
+
+
+SEEDED = [
+    # seeded C06/c06_inherit_set_writes_parent_first: inherited value accepted, own value invalid -> nothing may be written
+    {'mode': 'auto', 'warm': False, 'conn': 'default',
+     'ops': [['create', 'C', {'x': 1, 'y': 1, 'z': 1}, False], ['set', 'C', 1, [['x', 5], ['y', 6], ['z', 'bad']]],
+             ['create', 'B', {'x': 2, 'y': 2}, False], ['set', 'A', 2, [['x', 7], ['y', 'bad']]], ['select', 'A', ['true']]]},
+    # open finding inherit_set_not_atomic: an inherited value is invalid after another inherited column was written
+    {'mode': 'auto', 'warm': False, 'conn': 'default',
+     'ops': [['create', 'C', {'x': 1, 'y': 1, 'z': 1}, False], ['set', 'C', 1, [['y', 2], ['x', 'bad']]], ['get', 'A', 1]]},
+    # seeded C15/c15_parent_chain_on_default_connection: cold load through an explicit connection, the default database is empty
+    {'mode': 'auto', 'warm': False, 'conn': 'explicit',
+     'ops': [['create', 'C', {'x': 1, 'y': 1, 'z': 1}, False], ['get', 'A', 1], ['setattr', 'C', 1, 'x', 5], ['set', 'B', 1, [['y', 6], ['z', 7]]],
+             ['select', 'B', ['cmp', 'x', '>=', 1]], ['destroy', 'A', 1], ['select', 'A', ['true']]]},
+    {'mode': 'txn', 'warm': False, 'conn': 'explicit',
+     'ops': [['create', 'B', {'x': 1, 'y': 1}, False], ['create', 'B2', {'x': 2, 'w': 1}, False], ['byx', 'A', 2], ['setattr', 'A', 1, 'x', 5],
+             ['destroy', 'B2', 2], ['select', 'A', ['true']]]},
+]
 
 
 def generate(rng, tier):
@@ -421,14 +459,26 @@ def run_history(fx, case):
     from sqlobject.sqlite.sqliteconnection import SQLiteConnection
     base = SQLiteConnection(':memory:')
     hub = fx['hub']
-    hub.processConnection = base
-    for k in CLASSES + ['R']:
-        fx[k].createTable()
+    explicit = case.get('conn') == 'explicit'
+    other = None
+    if explicit:
+        # the classes' default connection is another, empty database; every operation names its connection
+        other = SQLiteConnection(':memory:')
+        hub.processConnection = other
+        for k in CLASSES + ['R']:
+            fx[k].createTable()
+            fx[k].createTable(connection=base)
+    else:
+        hub.processConnection = base
+        for k in CLASSES + ['R']:
+            fx[k].createTable()
     conn = base
     if case['mode'] == 'txn':
         conn = base.transaction()
-        hub.processConnection = conn
+        if not explicit:
+            hub.processConnection = conn
     warm = bool(case.get('warm'))
+    ckw = {'connection': conn} if explicit else {}
 
     def dump():
         t = {}
@@ -437,24 +487,30 @@ def run_history(fx, case):
         refs = [r[0] for r in conn.queryAll('SELECT b_id FROM verif_c15_hr ORDER BY id')]
         return t, refs
 
+    def dump_other():
+        return sum(other.queryOne('SELECT COUNT(*) FROM %s' % tb)[0] for tb in list(TABLE.values()) + ['verif_c15_hr'])
+
     steps = []
     try:
         for op in case['ops']:
             if not warm:
                 conn.cache.clear()
+                if other is not None:
+                    other.cache.clear()
             t = op[0]
             try:
                 if t == 'create':
                     kw = dict(op[2])
                     if op[3]:
                         kw['nosuch'] = 1
+                    kw.update(ckw)
                     o = fx[op[1]](**kw)
                     r = ['id', o.id, KOFPY.get(type(o).__name__, '?'), views(o)]
                 elif t == 'get':
-                    o = fx[op[1]].get(op[2])
+                    o = fx[op[1]].get(op[2], **ckw)
                     r = ['obj', o.id, KOFPY.get(type(o).__name__, '?'), views(o)]
                 elif t in ('setattr', 'set'):
-                    o = fx[op[1]].get(op[2])
+                    o = fx[op[1]].get(op[2], **ckw)
                     k = KOFPY[type(o).__name__]
                     if t == 'setattr':
                         if CLSOF[op[3]] not in CHAIN[k]:
@@ -468,25 +524,25 @@ def run_history(fx, case):
                     if r == ['ok']:
                         seen = []
                         for e in CHAIN[k]:
-                            o2 = fx[e].get(op[2])
+                            o2 = fx[e].get(op[2], **ckw)
                             seen.append([e, o2.id, KOFPY.get(type(o2).__name__, '?'), views(o2), o2 is o])
                         r = ['ok', seen]
                 elif t == 'select':
-                    sel = fx[op[1]].select(build_filter(fx, op[1], op[2]))
+                    sel = fx[op[1]].select(build_filter(fx, op[1], op[2]), **ckw)
                     frm = from_tables(sel)
                     objs = sorted([obj_rec(o) for o in sel], key=lambda x: x[0])
                     r = ['objs', objs, sel.count(), frm]
                 elif t == 'selectby':
                     kw = {} if op[2] is None else {op[2]: op[3]}
-                    sel = fx[op[1]].selectBy(**kw)
+                    sel = fx[op[1]].selectBy(**dict(kw, **ckw))
                     frm = from_tables(sel) if kw else [op[1]]
                     objs = sorted([obj_rec(o) for o in sel], key=lambda x: x[0])
                     r = ['objs', objs, sel.count(), frm]
                 elif t == 'byx':
-                    o = fx[op[1]].byX(op[2])
+                    o = fx[op[1]].byX(op[2], **ckw)
                     r = ['obj', o.id, KOFPY.get(type(o).__name__, '?'), views(o)]
                 elif t == 'destroy':
-                    o = fx[op[1]].get(op[2])
+                    o = fx[op[1]].get(op[2], **ckw)
                     o.destroySelf()
                     r = ['ok']
                 elif t == 'ref':
@@ -501,7 +557,10 @@ def run_history(fx, case):
                 r = ['err', exn_name(e)]
             o = o2 = sel = objs = None
             tabs, refs = dump()
-            steps.append({'r': r, 't': tabs, 'refs': refs})
+            st = {'r': r, 't': tabs, 'refs': refs}
+            if other is not None:
+                st['other'] = dump_other()
+            steps.append(st)
             if warm and nesting_ok(tabs) is not None:
                 warm = False
                 conn.cache.clear()
@@ -510,6 +569,8 @@ def run_history(fx, case):
             if case['mode'] == 'txn':
                 conn.rollback()
             base.close()
+            if other is not None:
+                other.close()
         except Exception:
             pass
     return {'steps': steps}
@@ -622,6 +683,8 @@ def failures(case, obs):
             out.append({'step': n, 'op': op, 'what': what, 'ids': ids, 'cause': cause, 'mode': case['mode']})
 
         changed = {k for k in CLASSES if tabs[k] != prev[k]}
+        if st.get('other'):
+            fail('%d row(s) appeared in the database of the default connection although every operation named another connection' % st['other'])
         # ---- nesting after the step
         bad_now, bad_prev = broken_ids(tabs), broken_ids(prev)
         newbad = bad_now - bad_prev
@@ -706,6 +769,25 @@ def failures(case, obs):
             if r[0] in ('err', 'skip'):
                 if t == 'setattr' and changed:
                     fail('an assignment that raised changed table(s) %s' % sorted(changed), [i])
+                if t == 'set' and changed and not newbad:
+                    # a set() that raises must not have written anything.  Known exception (open finding): the inherited
+                    # columns are written one by one before the own UPDATE, so a failure that is NOT the validation of an
+                    # own column can leave earlier inherited columns written -- and only those.
+                    k = born.get(i)
+                    cause = None
+                    if k is not None and i not in taint:
+                        own_bad = any(CLSOF[c] == k and v == 'bad' for c, v in op[3])
+                        given = {}
+                        for c, v in op[3]:
+                            given[CLSOF[c]] = v
+                        only_inherited = all(c in CHAIN[k][:-1] and c in given and given[c] != 'bad' and
+                                             tabs[c] == [[x[0], given[c] if x[0] == i else x[1], x[2]] for x in prev[c]]
+                                             for c in changed)
+                        if not own_bad and only_inherited:
+                            cause = 'set_not_atomic'
+                    fail('a set() through %s on %d raised %s but table(s) %s changed: %r -> %r' % (
+                        op[1], i, r[1], sorted(changed), {c: prev[c] for c in sorted(changed)}, {c: tabs[c] for c in sorted(changed)}),
+                        [i] if cause is None else [], cause)
                 reach = i in born and op[1] in CHAIN[born[i]]
                 if r == ['err', 'NotFound'] and reach and i not in taint:
                     fail('%s %r raised NotFound' % (t, op[1:3]), [i])
@@ -796,7 +878,8 @@ def failures(case, obs):
         prev, prefs = tabs, st['refs']
 
 
-CAUSES = {'destroy_restrict': 'destroy_refused_after_ancestor_rows_deleted',
+CAUSES = {'set_not_atomic': 'inherit_set_not_atomic',
+          'destroy_restrict': 'destroy_refused_after_ancestor_rows_deleted',
           'txn_create': 'failed_create_in_transaction_keeps_ancestor_rows'}
 
 
@@ -828,7 +911,7 @@ def nontrivial(case, obs):
 
 
 def key(case):
-    return [case['mode'], case['warm'], case['ops']]
+    return [case['mode'], case['warm'], case.get('conn', 'default'), case['ops']]
 
 
 def distribution(cases, obs):
@@ -838,6 +921,8 @@ def distribution(cases, obs):
             continue
         d['mode'][c['mode']] = d['mode'].get(c['mode'], 0) + 1
         d['warm'] += 1 if c['warm'] else 0
+        d.setdefault('explicit_connection', 0)
+        d['explicit_connection'] += 1 if c.get('conn') == 'explicit' else 0
         born = {}
         for op, st in zip(c['ops'], o['steps']):
             r = st['r']
@@ -859,7 +944,7 @@ def distribution(cases, obs):
 
 
 def explain(case, obs):
-    lines = ['mode %s, warm %s' % (case['mode'], case['warm'])]
+    lines = ['mode %s, warm %s, connection %s' % (case['mode'], case['warm'], case.get('conn', 'default'))]
     for op, st in zip(case['ops'], obs.get('steps', [])):
         lines.append('%r -> %r | %r refs %r' % (op, st['r'], st['t'], st['refs']))
     return '\n'.join(lines)
